@@ -563,7 +563,7 @@ func genTree(r *Rng, numeric bool) []c06Ent {
 
 var badPatterns = []string{"a[", "d/[", "[]", "x[a-", "sub\\"}
 
-func genArgs(r *Rng, tree []c06Ent) []string {
+func genArgs(r *Rng, tree []c06Ent, recursive bool) []string {
 	var files, dirs []string
 	for _, e := range tree {
 		if e.Dir {
@@ -573,31 +573,35 @@ func genArgs(r *Rng, tree []c06Ent) []string {
 		}
 	}
 	n := 1 + r.Intn(4)
+	dirHi := 18 // without -R a directory argument is just a failing input: rarer
+	if recursive {
+		dirHi = 28
+	}
 	var args []string
 	for i := 0; i < n; i++ {
-		k := r.Intn(20)
+		k := r.Intn(40)
 		switch {
-		case k < 6 && len(files) > 0:
+		case k < 16 && len(files) > 0:
 			args = append(args, Pick(r, files))
-		case k < 10 && len(dirs) > 0:
+		case k >= 16 && k < dirHi && len(dirs) > 0:
 			d := Pick(r, dirs)
 			if r.Chance(1, 5) {
 				d += "/"
 			}
 			args = append(args, d)
-		case k < 14:
+		case k >= 24 && k < 32:
 			base := ""
 			if len(dirs) > 0 && r.Chance(2, 3) {
 				base = Pick(r, dirs) + "/"
 			}
-			args = append(args, base+Pick(r, []string{"*", "*.log", "*.gz", "?", "[a-c]*", "*/*", "n?", "nomatch*"}))
-		case k < 16:
+			args = append(args, base+Pick(r, []string{"*", "*.log", "*.gz", "*.log", "?", "[a-c]*", "*/*", "n?", "nomatch*"}))
+		case k >= 32 && k < 34:
 			args = append(args, Pick(r, []string{"nope", "d/nope.log", "missing/x", "a.log/"}))
-		case k < 17 && len(args) > 0:
+		case k >= 34 && k < 36 && len(args) > 0:
 			args = append(args, Pick(r, args)) // a duplicate mention
-		case k < 18:
+		case k == 36:
 			args = append(args, Pick(r, badPatterns))
-		case k < 19 && i > 0:
+		case k == 37 && i > 0:
 			args = append(args, "-")
 		default:
 			if len(files) > 0 {
@@ -620,7 +624,7 @@ func genIn(r *Rng) c06In {
 	}
 	in.Tree = genTree(r, in.Mode == 2)
 	in.Gunzip = r.Chance(2, 5)
-	in.Recursive = r.Chance(2, 5)
+	in.Recursive = r.Chance(1, 2)
 	switch r.Intn(12) {
 	case 0: // no argument: standard input
 		in.Stdin = hex.EncodeToString(genText(r, in.Mode == 2))
@@ -628,13 +632,13 @@ func genIn(r *Rng) c06In {
 			in.Gunzip = false
 		}
 	case 1: // "-" first (whatever follows is not read)
-		in.Args = append([]string{"-"}, genArgs(r, in.Tree)[:r.Intn(2)]...)
+		in.Args = append([]string{"-"}, genArgs(r, in.Tree, in.Recursive)[:r.Intn(2)]...)
 		in.Stdin = hex.EncodeToString(genText(r, in.Mode == 2))
 		if !r.Chance(1, 4) {
 			in.Gunzip = false
 		}
 	default:
-		in.Args = genArgs(r, in.Tree)
+		in.Args = genArgs(r, in.Tree, in.Recursive)
 	}
 	return in
 }
